@@ -8,6 +8,10 @@ import Gmars.Proofs.AsmLabels
 import Gmars.Proofs.Render
 import Gmars.Proofs.AsmCompose
 import Gmars.Proofs.AsmEqu
+import Gmars.Proofs.AsmComposeForBytes
+import Gmars.Proofs.AsmComposeEquCase
+import Gmars.Proofs.AsmComposeEquExample
+import Gmars.Proofs.AsmComposeForExample
 
 namespace Gmars.Props.C03
 open Gmars
@@ -107,12 +111,83 @@ theorem compile_meaning_equ (lexTokens : String → List Token) (cfg : Config) (
       .ok ((Spec.meaningFlat sc (prog.map XItem.toItem)).map (toWD ameta)) :=
   AsmLine.compile_meaning_equ lexTokens cfg sc prog ameta d hv h63 hr hnd hsmall hrk hlt hw
 
+open AsmComposeEqu AsmCompose AsmLine Render in
+/-- `assemble_meaning_equ` — the whole assembler FROM BYTES on programs with labels AND EQU
+    definitions (placed anywhere, forward uses, EQU-in-EQU chains up to depth 62, predefined
+    constants, `;assert` lines, comments, ORG, a final END): for EVERY spacing of the program's
+    words and every byte string decoding to that text, `CompileWarrior` returns exactly the
+    reference meaning (EQUs substituted textually, labels as relative offsets, defaults,
+    reduction modulo the core size), or rejects exactly when the reference does. -/
+theorem assemble_meaning_equ (cfg : Config) (sc : Spec.Cfg) (p : EProg) (d : String → Nat)
+    (hv : cfg.validate = true) (h63 : cfg.coreSize.toNat < 2 ^ 63) (hr : CfgRel cfg sc)
+    (hlex : p.LexOK) (hnames : p.NamesOK)
+    (hplain : ∀ cs k, EItem.comment cs k ∈ p.items → plainComment cs)
+    (hnd : (p.labels ++ p.equNames ++ constNames).Nodup)
+    (hcl : ∀ x ∈ p.names, x ∈ p.labels ∨ x ∈ p.equNames ∨ x ∈ constNames)
+    (hsmall : xinstrCount p.xitems < 2 ^ 63)
+    (hrk : ERanked (xequs p.xitems ++ Spec.predefined sc) d) (hlt : ∀ s, d s < 63)
+    (hw : XProgWF lexString sc (xtables sc p.xitems) 0 p.xitems)
+    (ls : List SrcLine) (hls : ∀ l ∈ ls, l.ok (some '\n') = true) (hsame : SameLines ls p.srcLines)
+    (src : List UInt8) (hsrc : decodeRunes src = renderLines ls) :
+    assemble cfg src =
+      match Spec.meaningFlat sc (p.xitems.map AsmLine.XItem.toItem) with
+      | some m => .ok (toWD p.meta m)
+      | none => .err :=
+  AsmComposeEqu.assemble_meaning_equ cfg sc p d hv h63 hr hlex hnames hplain hnd hcl hsmall hrk hlt hw
+    ls hls hsame src hsrc
+
+open AsmComposeEqu AsmCompose AsmLine Render in
+/-- `assemble_meaning_anycase` — letter case of mnemonics is immaterial: if `q` is `p` with every
+    opcode, modifier and `equ`/`org`/`end` word written in ANY mixture of upper and lower case
+    (labels and names stay as they are: they are case-sensitive), every spacing of `q` assembles
+    to the reference meaning of `p`. -/
+theorem assemble_meaning_anycase (cfg : Config) (sc : Spec.Cfg) (p q : EProg) (d : String → Nat)
+    (hpq : p.CaseVar q)
+    (hv : cfg.validate = true) (h63 : cfg.coreSize.toNat < 2 ^ 63) (hr : CfgRel cfg sc)
+    (hlex : p.LexOK) (hnames : p.NamesOK)
+    (hplain : ∀ cs k, EItem.comment cs k ∈ p.items → plainComment cs)
+    (hnd : (p.labels ++ p.equNames ++ constNames).Nodup)
+    (hcl : ∀ x ∈ p.names, x ∈ p.labels ∨ x ∈ p.equNames ∨ x ∈ constNames)
+    (hsmall : xinstrCount p.xitems < 2 ^ 63)
+    (hrk : ERanked (xequs p.xitems ++ Spec.predefined sc) d) (hlt : ∀ s, d s < 63)
+    (hw : XProgWF lexString sc (xtables sc p.xitems) 0 p.xitems)
+    (ls : List SrcLine) (hls : ∀ l ∈ ls, l.ok (some '\n') = true) (hsame : SameLines ls q.srcLines)
+    (src : List UInt8) (hsrc : decodeRunes src = renderLines ls) :
+    assemble cfg src =
+      match Spec.meaningFlat sc (p.xitems.map AsmLine.XItem.toItem) with
+      | some m => .ok (toWD p.meta m)
+      | none => .err :=
+  AsmComposeEqu.assemble_meaning_anycase cfg sc p q d hpq hv h63 hr hlex hnames hplain hnd hcl hsmall hrk hlt hw
+    ls hls hsame src hsrc
+
+open AsmComposeFor AsmCompose AsmLine Render in
+/-- `assemble_meaning_for` — the whole assembler FROM BYTES on programs with FOR/ROF blocks:
+    `fp` is any program of label-free instructions and FOR blocks, sequential and nested to any
+    depth, counts literal or an enclosing counter, counters used in operand expressions; `ls` any
+    spacing of its words; `src` any byte string decoding to that text. When the manual unrolling
+    `U` takes `k ≤ 12` expansions, `CompileWarrior` returns exactly the reference meaning
+    `Spec.meaning` (FOR blocks unrolled by the reference itself), or rejects exactly when the
+    reference does. (No shadowed counters; every name is an enclosing counter.) -/
+theorem assemble_meaning_for (cfg : Config) (sc : Spec.Cfg) (fp : FProg)
+    (U : List FInstr) (k : Nat) (hu : FUnroll fp U k) (hk : k ≤ 12) (hok : fp.OK) (hlex : fp.LexOK)
+    (hfuel : U.length + k < 100000)
+    (hv : cfg.validate = true) (h63 : cfg.coreSize.toNat < 2 ^ 63) (hr : CfgRel cfg sc)
+    (hclosed : fp.Closed [])
+    (hw : ProgWF sc.M [] 0 (U.map FInstr.toL))
+    (ls : List SrcLine) (hls : ∀ l ∈ ls, l.ok (some '\n') = true) (hsame : SameLines ls fp.srcLines)
+    (src : List UInt8) (hsrc : decodeRunes src = renderLines ls) :
+    assemble cfg src =
+      match Spec.meaning sc fp.toItems with
+      | some m => .ok (toWD {} m)
+      | none => .err :=
+  AsmComposeFor.assemble_meaning_for cfg sc fp U k hu hk hok hlex hfuel hv h63 hr hclosed hw ls hls hsame src hsrc
+
 /-
-  Still open: the composition of `compile_meaning_equ` and C08's `for_unroll_full` with the lexer
-  and parser stage theorems into one statement for programs with EQUs and FOR blocks; mnemonic
-  letter case and label renaming as explicit rendering steps (the stage theorems are stated for the
-  words as written; `opcode_any_case` gives case-insensitivity of the decoding). The whole statement
-  is checked by the asm94/asm88 domains on 15 000 renderings per run.
+  Still open: one statement that has labels/EQUs AND FOR blocks in the SAME program
+  (`assemble_meaning_equ`: labels + EQU + asserts from bytes, any spacing, any mnemonic case;
+  `assemble_meaning_for`: label-free FOR blocks from bytes); comparison operators inside
+  operands; EQU names with a colon. The whole statement is checked by the asm94/asm88 domains
+  on 15 000 renderings per run.
 -/
 
 end Gmars.Props.C03
